@@ -3,5 +3,6 @@
    universe + initial states) is chosen by the config; histories are cut at MaxDepth. *)
 EXTENDS SetAlgebra, SetAlgebraU
 CONSTANT MaxDepth
-DepthBound == TLCGet("level") <= MaxDepth
+MCNext == TLCGet("level") < MaxDepth /\ Next
+HsView == hs
 =============================================================================
